@@ -6,6 +6,7 @@ import (
 	"go/types"
 	"os"
 	"path/filepath"
+	"regexp"
 	"sort"
 	"strings"
 
@@ -15,25 +16,26 @@ import (
 )
 
 type Engine struct {
-	repo      string
-	modPath   string
-	fset      *token.FileSet
-	prog      *ssa.Program
-	pkgs      []*packages.Package
-	pkgDir    map[string]string
-	contracts map[string]*Contract
-	pures     map[string]*PureFn
-	lemmas    []*Lemma
-	axioms    []string
-	ufs       map[string]*UF
-	funcIDs   map[*ssa.Function]int
-	typeTags  map[string]int
-	frames    map[*ssa.Function][]frameEntry
-	frameBusy map[*ssa.Function]bool
-	constGlob map[*ssa.Global]*globalInfo
-	globScan  bool
-	allFuncs  map[*ssa.Function]bool
-	config    string
+	repo       string
+	modPath    string
+	fset       *token.FileSet
+	prog       *ssa.Program
+	pkgs       []*packages.Package
+	pkgDir     map[string]string
+	contracts  map[string]*Contract
+	pures      map[string]*PureFn
+	lemmas     []*Lemma
+	axioms     []string
+	ufs        map[string]*UF
+	funcIDs    map[*ssa.Function]int
+	typeTags   map[string]int
+	frames     map[*ssa.Function][]frameEntry
+	frameBusy  map[*ssa.Function]bool
+	constGlob  map[*ssa.Global]*globalInfo
+	globScan   bool
+	allFuncs   map[*ssa.Function]bool
+	config     string
+	kindFilter *regexp.Regexp
 }
 
 type globalInfo struct {
